@@ -3,7 +3,7 @@
 //
 //  <id> api <font> <opts> <cb|cbnorel|file> <corrupt|-> <op> ...
 //      one face; tables come from callbacks that hand out a fresh malloc'd copy per get_table and free it at release_table
-//      (so a use after release is an ASan error) and log every call.  corrupt: comma list of  drop:<tag> | trunc:<tag>:<len> |
+//      (so a use after release is an ASan error) and log every call.  corrupt: comma list of  hideall | featid:<k>:<hex> | drop:<tag> | trunc:<tag>:<len> |
 //      set:<tag>:<off>:<byte>.   ops (slots k are small integers):
 //        seg:<k>:<enc>:<dir>:<fontslot|->:<fvslot|->:<hexunits>   gr_make_seg into slot k (an old segment there is destroyed first)
 //        dseg:<k>   font:<k>:<ppm>   hfont:<k>:<ppm> (advance callback)   dfont:<k>   fv:<k>:<langhex>   setfv:<k>:<featindex>:<value>   dfv:<k>
@@ -177,6 +177,16 @@ static void run_api(const std::vector<std::string> &f) {
                 std::vector<std::string> a = colon(c);
                 if (a[0] == "drop" && a.size() >= 2) src.dropped.insert(tagof(a[1]));
                 else if (a[0] == "trunc" && a.size() >= 3) { uint32_t t = tagof(a[1]); if (src.dir.count(t)) src.dir[t].second = std::min(src.dir[t].second, (size_t)strtoul(a[2].c_str(), 0, 10)); }
+                else if ((a[0] == "hideall" || (a[0] == "featid" && a.size() >= 3)) && src.dir.count(tagof("Feat")) && src.dir[tagof("Feat")].second >= 12) {
+                    // hideall: every feature of the Feat table gets the hidden flag; featid:<k>:<hex>: feature k gets another id
+                    uint8_t *ft = src.data.data() + src.dir[tagof("Feat")].first; size_t fl = src.dir[tagof("Feat")].second;
+                    bool v2 = ((ft[0] << 8) | ft[1]) >= 2; size_t rec = v2 ? 16 : 12, nf = (ft[4] << 8) | ft[5];
+                    for (size_t k = 0; k < nf && 12 + (k + 1) * rec <= fl; k++) {
+                        uint8_t *r = ft + 12 + k * rec;
+                        if (a[0] == "hideall") r[rec - 4] |= 0x08;
+                        else if (k == (size_t)atoi(a[1].c_str())) { uint32_t id = (uint32_t)strtoul(a[2].c_str(), 0, 16); if (v2) { r[0] = id >> 24; r[1] = id >> 16; r[2] = id >> 8; r[3] = id; } else { r[0] = id >> 8; r[1] = id; } }
+                    }
+                }
                 else if (a[0] == "set" && a.size() >= 4) { uint32_t t = tagof(a[1]); size_t off = strtoul(a[2].c_str(), 0, 10); if (src.dir.count(t) && off < src.dir[t].second) src.data[src.dir[t].first + off] = (uint8_t)strtoul(a[3].c_str(), 0, 10); }
             }
         }
@@ -229,6 +239,14 @@ static void run_api(const std::vector<std::string> &f) {
             else if (op == "label" && a.size() >= 4) {
                 unsigned fi = atoi(a[1].c_str()); gr_uint16 lang = (gr_uint16)strtoul(a[2].c_str(), 0, 10); int enc = atoi(a[3].c_str());
                 if (fi < gr_face_n_fref(face)) { gr_encform ef = enc == 8 ? gr_utf8 : enc == 16 ? gr_utf16 : gr_utf32; gr_uint32 len = 0; void *l = gr_fref_label(gr_face_fref(face, (gr_uint16)fi), &lang, ef, &len); r = "label=" + label_str(l, ef, len); if (l) gr_label_destroy(l); } else r = "nofeat";
+            }
+            else if (op == "flabel" && a.size() >= 4) {               // flabel:<id hex>:<lang>:<enc>: the feature found by id (hidden ones included) and its label
+                gr_uint16 lang = (gr_uint16)strtoul(a[2].c_str(), 0, 10); int enc = atoi(a[3].c_str());
+                const gr_feature_ref *fr = gr_face_find_fref(face, (gr_uint32)strtoul(a[1].c_str(), 0, 16));
+                if (fr) { gr_encform ef = enc == 8 ? gr_utf8 : enc == 16 ? gr_utf16 : gr_utf32; gr_uint32 len = 0; void *l = gr_fref_label(fr, &lang, ef, &len);
+                          char t[24]; snprintf(t, sizeof t, "flabel=%x:", gr_fref_id(fr)); r = t + label_str(l, ef, len); if (l) gr_label_destroy(l);
+                          if (gr_fref_n_values(fr)) { void *l2 = gr_fref_value_label(fr, 0, &lang, ef, &len); r += "/" + label_str(l2, ef, len); if (l2) gr_label_destroy(l2); } }
+                else r = "flabel=none";
             }
             else if (op == "vlabel" && a.size() >= 5) {
                 unsigned fi = atoi(a[1].c_str()); gr_uint16 lang = (gr_uint16)strtoul(a[3].c_str(), 0, 10); int enc = atoi(a[4].c_str());
